@@ -129,3 +129,66 @@ Example transpose_example :
   = Some [(11, Some (6, -1, 3)); (12, Some (6, -1, 3)); (13, Some (5, -1, 3)); (14, None)].
 Proof. vm_compute. reflexivity. Qed.
 Print Assumptions transpose_example.
+
+(* ---- T1 tie: the definitions T1_music.f are REGENERATED FROM THE SOURCE TEXT of the functions on every run
+   (harness/t1.py, a fail-closed Python-ast -> Gallina translator; Gen/T1_music.v names file, function and the
+   sha1 of each source segment).  First the equivalence with the hand model (spec_f of Model/T1_spec.v is the
+   hand model at the types of the translation), for ALL arguments unless a guard is stated; then the unbounded
+   theorems above, restated about the translated definitions.  If a function is outside the translator's subset
+   in this run its T1 name is a stub equal to spec_f (the evidence file says so): the statement is then about
+   the hand model only. ---- *)
+From PV Require Import Lib.Py Model.T1_spec.
+From PV Require Gen.T1_music Proofs.T1_core Proofs.C16_t1.
+Theorem t1_step2pc_eq : forall s a,
+  T1_music.step2pc s a = spec_step2pc s a.
+Proof. exact PV.Proofs.T1_core.t1_step2pc_eq. Qed.
+Print Assumptions t1_step2pc_eq.
+
+Theorem t1_Interval_semitones_eq : forall iv,
+  T1_music.Interval_semitones iv = spec_Interval_semitones iv.
+Proof. exact PV.Proofs.T1_core.t1_Interval_semitones_eq. Qed.
+Print Assumptions t1_Interval_semitones_eq.
+
+Theorem t1_transpose_step_eq : forall s n d,
+  T1_music.transpose_step s n d = spec_transpose_step s n d.
+Proof. exact PV.Proofs.C16_t1.t1_transpose_step_eq. Qed.
+Print Assumptions t1_transpose_step_eq.
+
+Theorem t1_transpose_note_inplace_eq : forall x iv,
+  In (i_direction iv) ["up"; "down"]%string ->
+  T1_music.transpose_note_inplace x iv = spec_transpose_note_inplace x iv.
+Proof. exact PV.Proofs.C16_t1.t1_transpose_note_inplace_eq. Qed.
+Print Assumptions t1_transpose_note_inplace_eq.
+
+Theorem t1_transpose_note_eq : forall s a iv,
+  T1_music.transpose_note s a iv = spec_transpose_note s a iv.
+Proof. exact PV.Proofs.C16_t1.t1_transpose_note_eq. Qed.
+Print Assumptions t1_transpose_note_eq.
+
+Theorem t1_transpose_inplace_spec : forall i a o n q sem up,
+  0 <= i <= 6 -> C12.interval_semitones n q = Some sem ->
+  T1_music.transpose_note_inplace (mk_note (step_name i) (Some a) o) (mk_interval n q (dir_name up))
+  = Some (note_of_pitch (C16.tr_spec n sem up (i, a, o))).
+Proof. exact PV.Proofs.C16_t1.t1_transpose_inplace_spec. Qed.
+Print Assumptions t1_transpose_inplace_spec.
+
+Theorem t1_midi_moves_by_semitones : forall i a o n q sem up,
+  0 <= i <= 6 -> C12.interval_semitones n q = Some sem ->
+  exists y, T1_music.transpose_note_inplace (mk_note (step_name i) (Some a) o) (mk_interval n q (dir_name up)) = Some y /\
+            T1_music.Note_midi_pitch y = Some (if up then C16.midi (i, a, o) + sem else C16.midi (i, a, o) - sem).
+Proof. exact PV.Proofs.C16_t1.t1_midi_moves_by_semitones. Qed.
+Print Assumptions t1_midi_moves_by_semitones.
+
+Theorem t1_up_down_identity : forall i a o n q sem up,
+  0 <= i <= 6 -> C12.interval_semitones n q = Some sem ->
+  exists y, T1_music.transpose_note_inplace (mk_note (step_name i) (Some a) o) (mk_interval n q (dir_name up)) = Some y /\
+            T1_music.transpose_note_inplace y (mk_interval n q (dir_name (negb up))) = Some (mk_note (step_name i) (Some a) o).
+Proof. exact PV.Proofs.C16_t1.t1_up_down_identity. Qed.
+Print Assumptions t1_up_down_identity.
+
+Theorem t1_transpose_note_spec : forall i a n q sem up,
+  0 <= i <= 6 -> C12.interval_semitones n q = Some sem ->
+  T1_music.transpose_note (step_name i) a (mk_interval n q (dir_name up)) =
+  match C16.tn_note n sem up i a with Some (i', a') => Some (step_name i', a') | None => None end.
+Proof. exact PV.Proofs.C16_t1.t1_transpose_note_spec. Qed.
+Print Assumptions t1_transpose_note_spec.
